@@ -334,6 +334,9 @@ func (e *Engine) verifyFunction(fn *ssa.Function, fc *FuncContract) (c *Ctx) {
 				bound[li.ordinal] = true
 			}
 		}
+		for n := range c.inlinedLoopOrdinals {
+			bound[n] = true
+		}
 		for n, lc := range fc.Loops {
 			if !bound[n] {
 				for _, inv := range lc.Invariants {
